@@ -18,6 +18,7 @@ typedef struct {
 	ZSTD_CStream *cstrm;
 	ZSTD_DStream *dstrm;
 	bool compress;
+	bool frame_open;
 } xfrm_zstd_t;
 
 static const ZSTD_EndDirective zstd_action[] = {
@@ -64,6 +65,10 @@ static int process_data(xfrm_stream_t *stream, const void *in,
 		if (ZSTD_isError(ret))
 			return XFRM_STREAM_ERROR;
 
+		/* 0 means a frame has been decoded and flushed completely */
+		if (!zstd->compress)
+			zstd->frame_open = (ret != 0);
+
 		if (pending && in_desc.pos == in_desc.size)
 			pending = (ret != 0);
 
@@ -77,8 +82,14 @@ static int process_data(xfrm_stream_t *stream, const void *in,
 	}
 
 	if (flush_mode != XFRM_STREAM_FLUSH_NONE) {
-		if (in_size == 0 && !pending)
+		if (in_size == 0 && !pending) {
+			/* the input ended in the middle of a frame */
+			if (!zstd->compress && zstd->frame_open &&
+			    flush_mode == XFRM_STREAM_FLUSH_FULL) {
+				return XFRM_STREAM_ERROR;
+			}
 			return XFRM_STREAM_END;
+		}
 	}
 
 	if (in_size > 0 && out_size == 0)
